@@ -602,3 +602,353 @@ Proof.
 Qed.
 
 End Total.
+
+(* ================================================================================================ *)
+(* one TCP connection: every stream, every fragmentation, every timing                               *)
+
+Section Stream.
+Variable O : T.oracles.
+
+(* the framing layer alone (C08_never_full): never a panic, never a busy loop, and room for a record of maximal
+   length is left after every operation *)
+Lemma conn_records_total : forall cfg evs, (1 <= record_limit cfg)%nat ->
+  exists records, conn_records cfg evs = Ok records.
+Proof.
+  intros cfg evs Hl. unfold conn_records.
+  destruct (C08.C08_never_full F.trs (c_linebuf cfg) (record_limit cfg) (F.conn_ops evs) Hl) as (st' & out & E & _).
+  rewrite E. eauto.
+Qed.
+
+Theorem conn_run_total : forall cfg g now clk evs,
+  config_ok O cfg -> ginv O cfg g -> (1 <= record_limit cfg)%nat ->
+  exists g' c' rs, conn_run O cfg g now clk evs = Ok (g', c', rs) /\ ginv O cfg g' /\ cinv O cfg g' c' /\
+                   Forall (result_shape cfg) rs.
+Proof.
+  intros cfg g now clk evs H Hg Hl. unfold conn_run.
+  destruct (conn_records_total cfg evs Hl) as [records E]. rewrite E. cbn [pbind].
+  destruct (process_records_total O cfg records g (new_conn cfg) now clk H Hg (cinv_new_conn O cfg g H))
+    as (g' & c' & rs & E' & Hg' & Hc' & _ & F').
+  exists g', c', rs. split; [exact E'|]. split; [exact Hg'|]. split; [exact Hc'|exact F'].
+Qed.
+
+(* ---------- malformed records between well-formed ones ---------- *)
+
+(* the parser's verdict on a record does not depend on the counters (C09_history_independent) *)
+Definition malformed (cfg : config) (x : bytes) : bool :=
+  match fst (Ps.parse (c_parser cfg) Ps.counters_zero x) with
+  | Ok None => true
+  | _ => false
+  end.
+
+Definition is_drop_parse (r : rec_result) : bool := match r with RDropParse => true | _ => false end.
+
+Lemma parse_split : forall cfg cnt x, ParserProofs.cfg_ok (c_parser cfg) ->
+  Ps.parse (c_parser cfg) cnt x =
+  (fst (Ps.parse (c_parser cfg) Ps.counters_zero x),
+   ParserProofs.counters_add cnt (snd (Ps.parse (c_parser cfg) Ps.counters_zero x))).
+Proof. intros cfg cnt x H. apply C09.C09_history_independent. exact H. Qed.
+
+(* the input counters are only carried along by everything behind the parser *)
+Lemma get_or_create_input : forall cfg g c okeys cnt,
+  get_or_create cfg g (with_input c cnt) okeys =
+  match get_or_create cfg g c okeys with
+  | Ok (g', c', i) => Ok (g', with_input c' cnt, i)
+  | Err e => Err e
+  | Panic s => Panic s
+  end.
+Proof.
+  intros cfg g c okeys cnt. unfold get_or_create. cbn [with_input cs_local cs_input cs_extract cs_ecnt].
+  destruct (R.local_get_or_create (c_tag cfg) (g_route g) (cs_local c) okeys) as [[[rg lm] i]| |]; try reflexivity.
+  destruct (new_pinsts cfg (skipn (length (g_pipes g)) (R.g_pipes rg))); reflexivity.
+Qed.
+
+Lemma process_parsed_input : forall cfg g c now clk r cnt,
+  process_parsed O cfg g (with_input c cnt) now clk r =
+  match process_parsed O cfg g c now clk r with
+  | Ok (g', c', res) => Ok (g', with_input c' cnt, res)
+  | Err e => Err e
+  | Panic s => Panic s
+  end.
+Proof.
+  intros cfg g c now clk r cnt. unfold process_parsed. cbn [with_input cs_local cs_input cs_extract cs_ecnt].
+  destruct (place (c_nfields cfg) (c_locs cfg) r) as [fields| |]; cbn [pbind]; try reflexivity.
+  destruct (run_xtfs O (c_local_off cfg) (cs_extract c) (cs_ecnt c) _) as [[[[ex' ecnt'] p1] pass]| |];
+    cbn [pbind]; try reflexivity.
+  destruct pass; cbn [negb]; [|reflexivity].
+  destruct (extract_keys (c_okeys cfg) (T.r_fields (fst p1))) as [okeys| |]; cbn [pbind]; try reflexivity.
+  change {| cs_input := cnt; cs_extract := ex'; cs_ecnt := ecnt'; cs_local := cs_local c |}
+    with (with_input {| cs_input := cs_input c; cs_extract := ex'; cs_ecnt := ecnt'; cs_local := cs_local c |} cnt).
+  rewrite get_or_create_input.
+  destruct (get_or_create cfg g _ okeys) as [[[g1 c2] idx]| |]; cbn [pbind]; try reflexivity.
+  destruct (nth_error (g_pipes g1) idx) as [pi|]; [|reflexivity].
+  destruct (worker_step O cfg pi idx clk p1) as [[pi' res]| |]; reflexivity.
+Qed.
+
+(* one record, on two connection states that differ in the input counters only *)
+Lemma process_record_input : forall cfg g c now clk x cnt, ParserProofs.cfg_ok (c_parser cfg) ->
+  process_record O cfg g (with_input c cnt) now clk x =
+  match process_record O cfg g c now clk x with
+  | Ok (g', c', res) =>
+    Ok (g', with_input c' (ParserProofs.counters_add cnt (snd (Ps.parse (c_parser cfg) Ps.counters_zero x))), res)
+  | Err e => Err e
+  | Panic s => Panic s
+  end.
+Proof.
+  intros cfg g c now clk x cnt H. unfold process_record. cbn [with_input cs_input].
+  rewrite (parse_split cfg cnt x H), (parse_split cfg (cs_input c) x H).
+  destruct (fst (Ps.parse (c_parser cfg) Ps.counters_zero x)) as [[r|]| |]; try reflexivity.
+  set (d := snd (Ps.parse (c_parser cfg) Ps.counters_zero x)).
+  change (with_input (with_input c cnt) (ParserProofs.counters_add cnt d))
+    with (with_input (with_input c (ParserProofs.counters_add (cs_input c) d)) (ParserProofs.counters_add cnt d)).
+  rewrite process_parsed_input.
+  destruct (process_parsed O cfg g (with_input c (ParserProofs.counters_add (cs_input c) d)) now clk r) as [[[g' c'] res]| |];
+    reflexivity.
+Qed.
+
+(* a malformed record changes the input counters of its connection and nothing else *)
+Lemma process_record_malformed : forall cfg g c now clk x, ParserProofs.cfg_ok (c_parser cfg) ->
+  malformed cfg x = true ->
+  process_record O cfg g c now clk x =
+  Ok (g, with_input c (ParserProofs.counters_add (cs_input c) (snd (Ps.parse (c_parser cfg) Ps.counters_zero x))), RDropParse).
+Proof.
+  intros cfg g c now clk x H Hm. unfold process_record. rewrite (parse_split cfg (cs_input c) x H).
+  unfold malformed in Hm. destruct (fst (Ps.parse (c_parser cfg) Ps.counters_zero x)) as [[r|]| |]; try discriminate.
+  reflexivity.
+Qed.
+
+Lemma process_record_wellformed : forall cfg g c now clk x g' c' res,
+  malformed cfg x = false -> ParserProofs.cfg_ok (c_parser cfg) ->
+  process_record O cfg g c now clk x = Ok (g', c', res) -> is_drop_parse res = false.
+Proof.
+  intros cfg g c now clk x g' c' res Hm H E.
+  destruct res; try reflexivity. exfalso.
+  unfold process_record in E. rewrite (parse_split cfg (cs_input c) x H) in E. unfold malformed in Hm.
+  destruct (fst (Ps.parse (c_parser cfg) Ps.counters_zero x)) as [[r|]| |]; try discriminate.
+  (* the parser accepted: process_parsed never answers RDropParse *)
+  unfold process_parsed in E.
+  destruct (place _ _ r) as [fields| |]; cbn [pbind] in E; try discriminate.
+  destruct (run_xtfs O _ _ _ _) as [[[[ex' ecnt'] p1] pass]| |]; cbn [pbind] in E; try discriminate.
+  destruct pass; cbn [negb] in E; [|discriminate].
+  destruct (extract_keys _ _) as [okeys| |]; cbn [pbind] in E; try discriminate.
+  destruct (get_or_create _ _ _ _) as [[[g1 c2] idx]| |]; cbn [pbind] in E; try discriminate.
+  destruct (nth_error _ _) as [pi|]; [|discriminate].
+  unfold worker_step in E.
+  destruct (extract_keys _ _) as [mk| |]; cbn [pbind] in E; try discriminate.
+  destruct (select_metric_key_set _ _ _) as [pi1| |]; cbn [pbind] in E; try discriminate.
+  destruct (run_xtfs O _ _ _ _) as [[[[t2 cn2] p2] pass2]| |]; cbn [pbind] in E; try discriminate.
+  destruct pass2; [|discriminate].
+  destruct (run_outputs _ _ _ _ _ _ _) as [[[pk st] ch]| |]; cbn [pbind] in E; discriminate.
+Qed.
+
+(* the fold: dropping the malformed records from the sequence changes nothing but the input counters *)
+Lemma process_records_filter : forall cfg inputs g c now clk g1 c1 rs cnt,
+  ParserProofs.cfg_ok (c_parser cfg) ->
+  process_records O cfg g c now clk inputs = Ok (g1, c1, rs) ->
+  exists cnt',
+    process_records O cfg g (with_input c cnt) now clk (filter (fun x => negb (malformed cfg x)) inputs)
+    = Ok (g1, with_input c1 cnt', filter (fun r => negb (is_drop_parse r)) rs) /\
+    map is_drop_parse rs = map (malformed cfg) inputs.
+Proof.
+  intros cfg inputs. induction inputs as [|x inputs IH]; intros g c now clk g1 c1 rs cnt H E.
+  - cbn in E. inversion E; subst. exists cnt. split; reflexivity.
+  - cbn [process_records] in E.
+    destruct (process_record O cfg g c now clk x) as [[[ga ca] res]| |] eqn:E1; cbn [pbind] in E; try discriminate.
+    destruct (process_records O cfg ga ca now clk inputs) as [[[gb cb] rs']| |] eqn:E2; cbn [pbind] in E; try discriminate.
+    inversion E; subst g1 c1 rs. clear E. cbn [filter map].
+    destruct (malformed cfg x) eqn:Hm; cbn [negb].
+    + (* malformed: skipped in the filtered run *)
+      rewrite (process_record_malformed cfg g c now clk x H Hm) in E1. inversion E1; subst ga ca res. clear E1.
+      cbn [is_drop_parse negb].
+      destruct (IH g (with_input c _) now clk gb cb rs' cnt H E2) as (cnt' & Ef & Em).
+      change (with_input (with_input c ?a) cnt) with (with_input c cnt) in Ef.
+      exists cnt'. split; [exact Ef|]. f_equal. exact Em.
+    + (* well-formed: the same step in both runs *)
+      pose proof (process_record_wellformed cfg g c now clk x ga ca res Hm H E1) as Hnd.
+      rewrite Hnd. cbn [negb process_records].
+      rewrite (process_record_input cfg g c now clk x cnt H). rewrite E1. cbn [pbind].
+      destruct (IH ga ca now clk gb cb rs' (ParserProofs.counters_add cnt (snd (Ps.parse (c_parser cfg) Ps.counters_zero x))) H E2)
+        as (cnt' & Ef & Em).
+      rewrite Ef. cbn [pbind]. exists cnt'. split; [reflexivity|]. f_equal. exact Em.
+Qed.
+
+(* the input counters after a sequence: the parser's own fold (C09) *)
+Lemma process_records_counters : forall cfg inputs g c now clk g1 c1 rs,
+  ParserProofs.cfg_ok (c_parser cfg) ->
+  process_records O cfg g c now clk inputs = Ok (g1, c1, rs) ->
+  cs_input c1 = ParserProofs.final_counters (c_parser cfg) (cs_input c) inputs.
+Proof.
+  intros cfg inputs. induction inputs as [|x inputs IH]; intros g c now clk g1 c1 rs H E.
+  - cbn in E. inversion E; subst. reflexivity.
+  - cbn [process_records] in E.
+    destruct (process_record O cfg g c now clk x) as [[[ga ca] res]| |] eqn:E1; cbn [pbind] in E; try discriminate.
+    destruct (process_records O cfg ga ca now clk inputs) as [[[gb cb] rs']| |] eqn:E2; cbn [pbind] in E; try discriminate.
+    inversion E; subst g1 c1 rs. clear E.
+    rewrite (IH ga ca now clk gb cb rs' H E2). unfold ParserProofs.final_counters. cbn [fold_left]. f_equal.
+    (* cs_input ca = snd (parse ...) *)
+    unfold process_record in E1.
+    destruct (Ps.parse (c_parser cfg) (cs_input c) x) as [[[r|]| |] cnt'] eqn:Ep; try discriminate.
+    + cbn [snd]. pose proof (process_parsed_input cfg g c now clk r cnt') as Hi. rewrite E1 in Hi.
+      destruct (process_parsed O cfg g c now clk r) as [[[g' c'] res']| |]; try discriminate.
+      inversion Hi; subst. reflexivity.
+    + inversion E1; subst. reflexivity.
+Qed.
+
+End Stream.
+
+(* ================================================================================================ *)
+(* neighbours unchanged: the same connection with and without the malformed records                   *)
+
+Section Neighbours.
+Variable O : T.oracles.
+
+Definition good (cfg : config) (x : bytes) : bool := negb (malformed cfg x).
+
+Lemma final_counters_cons : forall pcfg cnt x l, ParserProofs.cfg_ok pcfg ->
+  ParserProofs.final_counters pcfg cnt (x :: l) =
+  ParserProofs.final_counters pcfg (ParserProofs.counters_add cnt (snd (Ps.parse pcfg Ps.counters_zero x))) l.
+Proof.
+  intros pcfg cnt x l H. unfold ParserProofs.final_counters. cbn [fold_left].
+  rewrite (C09.C09_history_independent pcfg cnt x H). reflexivity.
+Qed.
+
+(* the counters of the two runs: equal but for the dropped records and bytes of the malformed records *)
+Lemma counters_filter : forall cfg ls cnt cnt', ParserProofs.cfg_ok (c_parser cfg) ->
+  let A := ParserProofs.final_counters (c_parser cfg) cnt ls in
+  let B := ParserProofs.final_counters (c_parser cfg) cnt' (filter (good cfg) ls) in
+  let bad := filter (malformed cfg) ls in
+  (Ps.passed_n A + Ps.passed_n cnt' = Ps.passed_n B + Ps.passed_n cnt /\
+   Ps.passed_bytes A + Ps.passed_bytes cnt' = Ps.passed_bytes B + Ps.passed_bytes cnt /\
+   Ps.overflow_n A + Ps.overflow_n cnt' = Ps.overflow_n B + Ps.overflow_n cnt /\
+   Ps.overflow_bytes A + Ps.overflow_bytes cnt' = Ps.overflow_bytes B + Ps.overflow_bytes cnt /\
+   Ps.dropped_n A + Ps.dropped_n cnt' = Ps.dropped_n B + Ps.dropped_n cnt + N.of_nat (length bad) /\
+   Ps.dropped_bytes A + Ps.dropped_bytes cnt' = Ps.dropped_bytes B + Ps.dropped_bytes cnt + SyslogSpec.sum_lengths bad)%N.
+Proof.
+  intros cfg ls. induction ls as [|x ls IH]; intros cnt cnt' H.
+  - cbn. repeat split; lia.
+  - cbn zeta. rewrite (final_counters_cons _ cnt x ls H). cbn [filter]. change (good cfg x) with (negb (malformed cfg x)).
+    destruct (malformed cfg x) eqn:Hm; cbn [negb].
+    + (* malformed: its increment is one dropped record of its length *)
+      destruct (C09.C09_accounting (c_parser cfg) Ps.counters_zero x H) as (res & d & Ep & Hacc).
+      unfold malformed in Hm. rewrite Ep in *. cbn [fst snd] in *. destruct res as [r|]; [discriminate|].
+      destruct Hacc as (a1 & a2 & a3 & a4 & a5 & a6). cbn in a1, a2, a3, a4, a5, a6.
+      specialize (IH (ParserProofs.counters_add cnt d) cnt' H). cbn zeta in IH.
+      destruct IH as (i1 & i2 & i3 & i4 & i5 & i6).
+      unfold ParserProofs.counters_add in *. cbn [Ps.passed_n Ps.passed_bytes Ps.dropped_n Ps.dropped_bytes Ps.overflow_n Ps.overflow_bytes] in *.
+      cbn [length SyslogSpec.sum_lengths fold_right]. fold (SyslogSpec.sum_lengths (filter (malformed cfg) ls)).
+      repeat split; lia.
+    + rewrite (final_counters_cons _ cnt' x _ H).
+      specialize (IH (ParserProofs.counters_add cnt (snd (Ps.parse (c_parser cfg) Ps.counters_zero x)))
+                     (ParserProofs.counters_add cnt' (snd (Ps.parse (c_parser cfg) Ps.counters_zero x))) H).
+      cbn zeta in IH. destruct IH as (i1 & i2 & i3 & i4 & i5 & i6).
+      unfold ParserProofs.counters_add in *. cbn [Ps.passed_n Ps.passed_bytes Ps.dropped_n Ps.dropped_bytes Ps.overflow_n Ps.overflow_bytes] in *.
+      repeat split; lia.
+Qed.
+
+Lemma Forall_filter : forall (A : Type) (P : A -> Prop) f (l : list A), Forall P l -> Forall P (filter f l).
+Proof.
+  intros A P f l H. apply Forall_forall. intros x Hx. apply filter_In in Hx. destruct Hx as [Hx _].
+  eapply Forall_forall; eassumption.
+Qed.
+
+(* [ls]: the lines of the stream, every one a complete single-line record START (shape "<ddd>1 ", at least 32
+   bytes, at most b bytes - C08's side conditions), some of them malformed (rejected by the parser: PRI out of
+   range, missing header fields, ...).  [evs1] delivers all of them, [evs2] only the well-formed ones - in ANY
+   fragmentation and with ANY read timing each.  Then the agent ends in the same shared state, the results for
+   the well-formed records are the same (pipeline, serialized bytes for every output, chunks), every malformed
+   record - and nothing else - is answered RDropParse, and the input counters differ exactly by one dropped
+   record, with its length, per malformed record. *)
+Theorem neighbours_unchanged_lemma : forall cfg g now clk b (ls : list bytes) evs1 evs2,
+  config_ok O cfg -> ginv O cfg g ->
+  (1 <= record_limit cfg)%nat ->
+  (2 * b + 1 + record_limit cfg <= Nat.max (c_linebuf cfg) (record_limit cfg * 3))%nat ->
+  Forall (FramingSpec.valid_line F.trs b) ls ->
+  FramingSpec.ops_text (F.conn_ops evs1) = FramingSpec.unlines ls ->
+  FramingSpec.ops_text (F.conn_ops evs2) = FramingSpec.unlines (filter (good cfg) ls) ->
+  exists g' c1 c2 rs1,
+    conn_run O cfg g now clk evs1 = Ok (g', c1, rs1) /\
+    conn_run O cfg g now clk evs2 = Ok (g', c2, filter (fun r => negb (is_drop_parse r)) rs1) /\
+    map is_drop_parse rs1 = map (malformed cfg) ls /\
+    cs_extract c2 = cs_extract c1 /\ cs_ecnt c2 = cs_ecnt c1 /\ cs_local c2 = cs_local c1 /\
+    (let bad := filter (malformed cfg) ls in
+     Ps.passed_n (cs_input c1) = Ps.passed_n (cs_input c2) /\
+     Ps.passed_bytes (cs_input c1) = Ps.passed_bytes (cs_input c2) /\
+     Ps.overflow_n (cs_input c1) = Ps.overflow_n (cs_input c2) /\
+     Ps.overflow_bytes (cs_input c1) = Ps.overflow_bytes (cs_input c2) /\
+     Ps.dropped_n (cs_input c1) = Ps.dropped_n (cs_input c2) + N.of_nat (length bad) /\
+     Ps.dropped_bytes (cs_input c1) = Ps.dropped_bytes (cs_input c2) + SyslogSpec.sum_lengths bad)%N.
+Proof.
+  intros cfg g now clk b ls evs1 evs2 H Hg Hl Hcap Hv T1 T2.
+  pose proof (proj1 C08.C08_test_record_start_prefix) as Hnil.
+  destruct (C08.C08_connection_single_line F.trs (c_linebuf cfg) (record_limit cfg) b ls evs1 Hnil Hl Hcap Hv T1) as [st1 R1].
+  destruct (C08.C08_connection_single_line F.trs (c_linebuf cfg) (record_limit cfg) b (filter (good cfg) ls) evs2 Hnil Hl Hcap
+              (Forall_filter _ _ _ _ Hv) T2) as [st2 R2].
+  unfold conn_run, conn_records. rewrite R1, R2. cbn [pbind].
+  destruct (process_records_total O cfg ls g (new_conn cfg) now clk H Hg (cinv_new_conn O cfg g H))
+    as (g' & c1 & rs1 & E1 & _).
+  destruct (process_records_filter O cfg ls g (new_conn cfg) now clk g' c1 rs1 Ps.counters_zero (ok_parser O cfg H) E1)
+    as (cnt' & E2 & Em).
+  change (with_input (new_conn cfg) Ps.counters_zero) with (new_conn cfg) in E2.
+  exists g', c1, (with_input c1 cnt'), rs1.
+  split; [exact E1|]. split; [exact E2|]. split; [exact Em|].
+  split; [reflexivity|]. split; [reflexivity|]. split; [reflexivity|].
+  pose proof (process_records_counters O cfg ls g (new_conn cfg) now clk g' c1 rs1 (ok_parser O cfg H) E1) as K1.
+  pose proof (process_records_counters O cfg _ g (new_conn cfg) now clk g' _ _ (ok_parser O cfg H) E2) as K2.
+  cbn [with_input cs_input new_conn] in K1, K2 |- *. rewrite K1, K2.
+  pose proof (counters_filter cfg ls Ps.counters_zero Ps.counters_zero (ok_parser O cfg H)) as C. cbn zeta in C.
+  cbn [Ps.counters_zero Ps.passed_n Ps.passed_bytes Ps.dropped_n Ps.dropped_bytes Ps.overflow_n Ps.overflow_bytes] in C.
+  unfold good in *. cbn zeta. lia.
+Qed.
+
+End Neighbours.
+
+(* ================================================================================================ *)
+(* corollaries                                                                                      *)
+
+Section Corollaries.
+Variable O : T.oracles.
+
+(* any number of connections, one after the other, on one long-lived agent *)
+Theorem agent_run_total : forall cfg conns g now clk,
+  config_ok O cfg -> ginv O cfg g -> (1 <= record_limit cfg)%nat ->
+  exists g' rss, agent_run O cfg g now clk conns = Ok (g', rss) /\ ginv O cfg g' /\ length rss = length conns.
+Proof.
+  intros cfg conns. induction conns as [|evs conns IH]; intros g now clk H Hg Hl.
+  - exists g, []. split; [reflexivity|]. split; [exact Hg|reflexivity].
+  - cbn [agent_run]. destruct (conn_run_total O cfg g now clk evs H Hg Hl) as (g1 & c1 & rs & E & Hg1 & _).
+    rewrite E. cbn [pbind]. destruct (IH g1 now clk H Hg1 Hl) as (g2 & rss & E2 & Hg2 & L).
+    rewrite E2. cbn [pbind]. exists g2, (rs :: rss). split; [reflexivity|]. split; [exact Hg2|cbn; lia].
+Qed.
+
+(* every label value the agent has handed to the metric registry is valid: Gather keeps working *)
+Lemma ginv_metrics_ok : forall cfg g, ginv O cfg g -> metrics_ok g = true.
+Proof.
+  intros cfg g (_ & _ & _ & _ & Hf). unfold metrics_ok. apply forallb_forall. intros pi Hin.
+  destruct (proj1 (Forall_forall _ _) Hf pi Hin) as (_ & _ & _ & Hm). exact Hm.
+Qed.
+
+End Corollaries.
+
+(* every stream of a passed record is one self-contained MessagePack value that the independent decoder of C10
+   reads back as exactly the record's event, with nothing left over: appended to a chunk it cannot disturb the
+   events before or after it (C10_decode_encode, C10_small_event_small_strings) *)
+From SV Require Props.C10 Spec.MsgpackSpec.
+
+Lemma passed_streams_decode : forall cfg res,
+  result_shape cfg res ->
+  (N.of_nat (length (c_schema cfg)) < 65535)%N ->
+  Forall (fun o => (N.of_nat (length (S.c_env (oc_ser o))) < 65536)%N) (c_outputs cfg) ->
+  match res with
+  | RPassed _ streams _ =>
+      exists rec, Forall2 (fun o stream =>
+                     (N.of_nat (length stream) < 4294967296)%N ->
+                     MsgpackSpec.decode_all stream = Some (SS.event_tree (c_schema cfg) (oc_ser o) rec, []))
+                  (c_outputs cfg) streams
+  | _ => True
+  end.
+Proof.
+  intros cfg res Hs Hn He. destruct res as [| | |idx streams chunks]; try exact I.
+  destruct Hs as [rec Hs]. exists rec. unfold streams_complete in Hs. subst streams.
+  induction (c_outputs cfg) as [|o outs IH]; [constructor|].
+  inversion He as [|? ? Ho Hr]; subst. cbn [map]. constructor; [|apply IH; exact Hr].
+  intros Hlen. apply C10.C10_decode_encode; [apply C10.C10_small_event_small_strings; exact Hlen|exact Hn|exact Ho].
+Qed.
